@@ -14,7 +14,9 @@ pub struct Case {
     pub calls: Vec<(u8, X)>,
 }
 
-pub const LATTICE: [f64; 10] = [f64::NEG_INFINITY, -2.0, -1.0, -0.0, 0.0, 1.0, 2.0, 3.0, f64::INFINITY, f64::NAN];
+/// the property's lattice plus one extra letter: a NaN with the sign bit set (what 0.0/0.0 yields on x86-64)
+pub const LATTICE: [f64; 11] = [f64::NEG_INFINITY, -2.0, -1.0, -0.0, 0.0, 1.0, 2.0, 3.0, f64::INFINITY, f64::NAN, NEG_NAN];
+pub const NEG_NAN: f64 = f64::from_bits(0xFFF8_0000_0000_0000);
 
 fn verdict(last: &[Option<f64>; 5]) -> Result<(), TaError> {
     if last.iter().any(|v| v.is_none()) {
@@ -120,12 +122,12 @@ fn perm(mut k: usize) -> [u8; 5] {
 }
 
 fn tuple(i: u64) -> [f64; 5] {
-    let d = digits(i, 10, 5);
+    let d = digits(i, 11, 5);
     [LATTICE[d[0]], LATTICE[d[1]], LATTICE[d[2]], LATTICE[d[3]], LATTICE[d[4]]]
 }
 
 fn random_strategy() -> BoxedStrategy<Case> {
-    let val = prop_oneof![6 => -50.0f64..150.0, 2 => (0usize..10).prop_map(|i| LATTICE[i]), 1 => (-300.0f64..300.0).prop_map(|e| 10f64.powf(e))];
+    let val = prop_oneof![6 => -50.0f64..150.0, 2 => (0usize..11).prop_map(|i| LATTICE[i]), 1 => (-300.0f64..300.0).prop_map(|e| 10f64.powf(e))];
     prop_oneof![
         // consistent by construction, random order, with optional repeated setter calls
         4 => (1.0f64..100.0, 0.0f64..1.0, 0.0f64..1.0, 0.0f64..1.0, 0.0f64..1.0, 0.0f64..1e6, 0usize..120, vec((0u8..5, -10.0f64..200.0), 0..3)).prop_map(|(mid, a, b, o, c, v, pk, pre)| {
@@ -144,14 +146,14 @@ fn random_strategy() -> BoxedStrategy<Case> {
 }
 
 pub fn run(g: &mut Global) {
-    g.rule = "exhaustive, seed-independent: all 10^5 tuples over the lattice {-inf,-2,-1,-0.0,0.0,1,2,3,+inf,NaN}, each under all 120 setter orders (1.2e7 builds, both tiers); all 31 proper subsets of the five setters for a 1000-tuple subset; repeated setter calls (last wins); random: consistent bars by construction and arbitrary call sequences. Oracle: reference predicate (Incomplete iff a setter was never called, else Invalid iff not(low<=open, low<=close, low<=high, high>=open, high>=close, volume>=0), else Ok) and bit-exact getters, clone == item. Non-trivial = complete tuples at the accept/reject boundary (changing one field to a lattice neighbour flips the verdict) and incomplete call sequences with at least four calls; distinct by hash of the call sequence.".into();
+    g.rule = "exhaustive, seed-independent: all 11^5 = 161 051 tuples over the lattice {-inf,-2,-1,-0.0,0.0,1,2,3,+inf,NaN} extended by a sign-bit-set NaN, each under all 120 setter orders (1.2e7 builds, both tiers); all 31 proper subsets of the five setters for a 1000-tuple subset; repeated setter calls (last wins); random: consistent bars by construction and arbitrary call sequences. Oracle: reference predicate (Incomplete iff a setter was never called, else Invalid iff not(low<=open, low<=close, low<=high, high>=open, high>=close, volume>=0), else Ok) and bit-exact getters, clone == item. Non-trivial = complete tuples at the accept/reject boundary (changing one field to a lattice neighbour flips the verdict) and incomplete call sequences with at least four calls; distinct by hash of the call sequence.".into();
     g.assumptions = vec![];
     let all_orders = true; // 1.2e7 builds take well under a second on 16 cores: both tiers
     let _ = Tier::Quick;
     if all_orders {
         g.exhaustive(
             "lattice_all_orders",
-            100_000 * 120,
+            161_051 * 120,
             &|i| {
                 let t = tuple(i / 120);
                 let p = perm((i % 120) as usize);
@@ -162,7 +164,7 @@ pub fn run(g: &mut Global) {
     } else {
         g.exhaustive(
             "lattice",
-            100_000,
+            161_051,
             &|i| {
                 let t = tuple(i);
                 let p = perm((i % 120) as usize);
@@ -185,7 +187,7 @@ pub fn run(g: &mut Global) {
         "subsets",
         1000 * 31,
         &|i| {
-            let t = tuple((i / 31) * 100 + 3);
+            let t = tuple((i / 31) * 161 + 3);
             let mask = (i % 31) as u8; // proper subsets: 0..=30
             let p = perm(((i / 31) % 120) as usize);
             Case { calls: p.iter().filter(|&&j| mask & (1 << j) != 0).map(|&j| (j, X(t[j as usize]))).collect() }
@@ -198,7 +200,7 @@ pub fn run(g: &mut Global) {
         &|i| {
             // first a full tuple, then a second full or partial pass with other values: last wins
             let t1 = tuple(i * 5 + 1);
-            let t2 = tuple((i * 7919 + 13) % 100_000);
+            let t2 = tuple((i * 7919 + 13) % 161_051);
             let mask = (i % 32) as u8;
             let mut calls: Vec<(u8, X)> = (0..5u8).map(|j| (j, X(t1[j as usize]))).collect();
             calls.extend((0..5u8).rev().filter(|j| mask & (1 << j) != 0).map(|j| (j, X(t2[j as usize]))));
